@@ -28,7 +28,7 @@ def schemaOKB (l : Spec.Layout) (att : Spec.HeapOf Spec.AttrRow) (ver : Nat) : B
   (decide (ver < 12) && att.live.all storageOKB)
 
 def dumpableB (l : Spec.Layout) (d : Spec.DbContent) (o : Spec.Options) : Bool :=
-  schemaOKB l d.att o.pgVersion &&
+  schemaOKB l d.att o.pgVersion && decide (GoCase.FilterStable o d.cls.live) && decide (Spec.A02Free d o) &&
   d.cls.live.all fun r =>
     !Spec.selectedRel o r ||
       (r.filenode != 1259 && r.filenode != 1249 && (d.raws.lookup r.filenode).isNone &&
@@ -36,8 +36,10 @@ def dumpableB (l : Spec.Layout) (d : Spec.DbContent) (o : Spec.Options) : Bool :
         | some pages => o.listOnly || pages.isEmpty || relReadableB d r
         | none => true))
 
-/-- every database that `o` selects and that has a directory is dumpable -/
+/-- the cluster lies in none of the classes of the open findings C01-TPL, C01-SEG, C01-TBLSPC (A02 is per database and
+options: `dumpableB`), and every database that `o` selects and that has a directory is dumpable -/
 def dumpHypB (c : Spec.Cluster) (o : Spec.Options) : Bool :=
+  decide (Spec.TemplatesByName c) && decide c.Plain &&
   c.dbs.live.all fun db =>
     !Spec.selectedDb o db ||
       match c.content.lookup db.oid with
